@@ -990,10 +990,10 @@ def run(tier, seed, replay=None):
             for k, row in enumerate(rows):
                 a = c10_alias.mk_aspec(world.tx, len(specs), row)
                 # quick tier: the hook subprocess vector where $DIPPY_CONFIG names another layer's file (every spelling), on
-                # the level x location rows and on every sixth other case; the in-process oracle, the bash ground truth
+                # the level x location rows and on every eighth other case; the in-process oracle, the bash ground truth
                 # and the model on all of them
                 if tier == "quick":
-                    a["hook"] = (k < n_core and (row["target"] in ("U", "P") or not row["far"])) or k % 6 == 0
+                    a["hook"] = (k < n_core and (row["target"] in ("U", "P") or not row["far"])) or k % 8 == 0
                 else:       # every systematic row, every third random row
                     a["hook"] = k < n_sys or k % 3 == 0
                 if row["user"] == "noread" and not capdrop_ok:
